@@ -487,6 +487,21 @@ def run(chk):
         p = os.path.join(wdir, "corpus_pt_%d.wb" % ci)
         open(p, "w").write(json.dumps(cw))
         docs.append((p, "structure", "D32 corpus: depth-surface point with %d coordinates" % len(pt), None, 0))
+    for ci, (fm, lith) in enumerate([("oceanic plate", "granite"), ("subducting plate", "per[idotite"), ("oceanic plate", "")]):
+        # D35 corpus: an option value that is a free string in the schema but one of four names in the code
+        cm = {"model": "tian water content", "compositions": [0], "lithology": lith, "initial water content": 2.0, "cutoff pressure": 10.0}
+        if fm == "oceanic plate":
+            ft = {"model": fm, "name": "o", "coordinates": [[-1e5, -1e5], [1e5, -1e5], [1e5, 1e5], [-1e5, 1e5]], "max depth": 1e5,
+                  "temperature models": [{"model": "uniform", "temperature": 900.0}], "composition models": [cm]}
+        else:
+            ft = {"model": fm, "name": "s", "coordinates": [[0.0, -1e5], [0.0, 1e5]], "dip point": [1e6, 0.0],
+                  "segments": [{"length": 3e5, "thickness": [1e5], "angle": [45.0]}],
+                  "temperature models": [{"model": "uniform", "temperature": 900.0}], "composition models": [cm]}
+        cw = {"version": "1.1", "features": [ft]}
+        p = os.path.join(wdir, "corpus_lith_%d.wb" % ci)
+        open(p, "w").write(json.dumps(cw))
+        bases.append((p, cw, ["%s %s %s %s %s" % (common.fhex(5e4), common.fhex(1e3), common.fhex(1000e3 - 6e4), common.fhex(6e4), TOK)]))
+        docs.append((p, "structure", "D35 corpus: lithology %s of a %s" % (json.dumps(lith), fm), True, len(bases) - 1))
     verdicts = schema_verdicts([d[0] for d in docs])
     # one process per document would be slow: batch, the resilient runner restarts after a death
     lines, owner = [], []
